@@ -158,12 +158,12 @@ class LetSubstitution:
         if len(node) <= 2:
             return []
         # symbols bound by this binder or by a binder within its body
-        bound = self.__bound_symbols(node)
+        bound = get_bound_symbols(node)
         for var in node[1]:
             if any(n == var[0] for n in nodes.dfs(var[1])):
                 # Avoid cycles (for example with core.ReplaceByChild)
                 continue
-            if any(n == var[0] for n in self.__bound_symbols(node[2])):
+            if any(n == var[0] for n in get_bound_symbols(node[2])):
                 # the variable is bound again within the body
                 continue
             if any(n.is_leaf() and n in bound for n in nodes.dfs(var[1])):
@@ -173,23 +173,6 @@ class LetSubstitution:
                 subs = nodes.substitute(node[2], {var[0]: var[1]})
                 yield Simplification({node.id: Node(node[0], node[1], subs)},
                                      [])
-
-    def __bound_symbols(self, node):
-        """Return the symbols bound by binders within ``node``."""
-        res = []
-        for n in nodes.dfs(node):
-            if not n.has_ident() or len(n) < 3:
-                continue
-            if n.get_ident() in ['let', 'forall', 'exists', 'lambda']:
-                if not n[1].is_leaf():
-                    res.extend(v[0] for v in n[1]
-                               if not v.is_leaf() and len(v) > 0)
-            elif n.get_ident() == 'match' and not n[2].is_leaf():
-                for case in n[2]:
-                    if not case.is_leaf() and len(case) > 0:
-                        res.extend(p for p in nodes.dfs(case[0])
-                                   if p.is_leaf())
-        return res
 
     def __str__(self):
         return 'substitute variable into let body'
